@@ -30,6 +30,8 @@ H_LINE = 'PRINT "E";ERR;"L";ERL:IF ERR THEN RESUME NEXT ELSE RETURN'
 W_LINE = 'FOR I=1 TO 3:NEXT:END'
 HE_LINE = 'PRINT "E";ERR;"L";ERL:RESUME NEXT'
 HK_LINE = 'PRINT "K":RETURN'
+HS_LINE = 'PRINT "E";ERR;"L";ERL:WHILE S:S=0:STOP:WEND:RESUME NEXT'     # as HE_LINE, but stops once inside the handler when S is set
+X_LINE = 'S=1:ERROR 5:END'
 _LEX = re.compile(br'\[(\d+)\]| in (\d+)|L (\d+) ')
 _REPORT = re.compile(br'Undefined line (\d+) in (\d+)\r')
 _TRAPPED = re.compile(br'E (\d+) L ')
@@ -385,24 +387,28 @@ def run(ctx):
                 break
     # 3b. traps follow their lines
     ntrap = ctx.pick(90, 700)
+    inh_runs = {}
     for p in range(ntrap):
         k = rng.randint(4, 10)
         nums = line_numbers(rng, k)
         if len(nums) < 4:
             continue
-        hi = sorted(rng.sample(range(len(nums)), 4))
-        roles = dict(zip(rng.sample(hi, 4), ['h1', 'h2', 'h3', 'w']))
+        # variant "handler in progress": the program is stopped inside its error handler (STOP before RESUME) when RENUM is given;
+        # CONT then finishes the handler and the usual probes follow (round-2 seeded change C14b skipped the trap line in that mode)
+        inh = len(nums) >= 5 and rng.random() < 0.4
+        hi = sorted(rng.sample(range(len(nums)), 5 if inh else 4))
+        roles = dict(zip(rng.sample(hi, len(hi)), ['h1', 'h2', 'h3', 'w'] + (['x'] if inh else [])))
         lines, role_line = [], {}
         for i, n in enumerate(nums):
             if i in roles:
                 role_line[roles[i]] = n
-                lines.append((n, lit({'w': W_LINE, 'h1': HE_LINE}.get(roles[i], HK_LINE))))
+                lines.append((n, lit({'w': W_LINE, 'h1': HS_LINE if inh else HE_LINE, 'x': X_LINE}.get(roles[i], HK_LINE))))
             else:
                 lines.append((n, gen_text13(rng, nums)))
         d.tag = {'src': 'traps', 'trap_below_old': False}
         d.load(lines)
         armed = {}
-        if rng.random() < 0.85:
+        if inh or rng.random() < 0.85:
             armed['err'] = role_line['h1']
             d.onerror(armed['err'])
         for key in (1, 2):
@@ -416,9 +422,17 @@ def run(ctx):
                 na = (1,) + na[1:]
             o = 0 if na[1] == -1 else na[1]
             d.tag = {'src': 'traps', 'trap_below_old': any(v < o for v in armed.values())}
+            if inh:
+                r0 = d.st.s.ex('GOTO %d' % role_line['x'], budget=30)         # ERROR 5 -> handler -> STOP inside the handler
+                stopped = b'Break in' in (r0[2] if len(r0) > 2 and isinstance(r0[2], bytes) else b'')
+                d.tag['in_handler'] = stopped
+                inh_runs[stopped] = inh_runs.get(stopped, 0) + 1
             e = d.renum(*na)
             if e['kind'] == 'internal':
                 break
+            if inh:
+                d.st.s.ex('CONT', budget=30)                                  # WEND:RESUME NEXT -> END: the handler is finished
+                inh = False
             d.probe_err()
             # the wait line is found again by its text in the observed listing
             w = [p_[0] for p_ in e['obs']['list'] if p_[1] == W_LINE]
@@ -478,6 +492,8 @@ def run(ctx):
     ctx.cov['renum_in_program'] = sum(1 for e in ren if e['stmt'].startswith('line '))
     ctx.cov['probes'] = sum(1 for e in events if e['op'].startswith('probe'))
     ctx.cov['runs'] = sum(1 for e in events if e['op'] == 'run')
+    ctx.cov['renum_while_stopped_in_error_handler'] = inh_runs.get(True, 0)
+    ctx.cov['renum_handler_variant_not_stopped'] = inh_runs.get(False, 0)
     ctx.cov['events_by_source'] = {}
     for e in events:
         ctx.cov['events_by_source'][e.get('src')] = ctx.cov['events_by_source'].get(e.get('src'), 0) + 1
